@@ -154,11 +154,28 @@ class CaseTimeout(BaseException):
     pass
 
 
+_LOAD = [0.0, 1.0]
+
+
+def load_factor():
+    """>= 1: how much longer than on an idle machine things may take right now (1-minute load average per core, sampled at
+    most every 5 s).  Watchdogs are stretched by it: a wall-clock alarm must never become a verdict because twenty other
+    jobs share the machine."""
+    now = time.time()
+    if now - _LOAD[0] > 5:
+        _LOAD[0] = now
+        try:
+            _LOAD[1] = max(1.0, min(10.0, 2.0 * os.getloadavg()[0] / (os.cpu_count() or 1)))
+        except OSError:
+            _LOAD[1] = 1.0
+    return _LOAD[1]
+
+
 class alarm:
-    """SIGALRM-based per-case watchdog for in-process pure-Python work."""
+    """SIGALRM-based per-case watchdog for in-process pure-Python work (stretched by the machine's load)."""
 
     def __init__(self, seconds):
-        self.seconds = seconds
+        self.seconds = seconds * load_factor()
 
     def _raise(self, *a):
         raise CaseTimeout()
